@@ -10,7 +10,7 @@ def run(path, repo):
     d = json.load(open(path))
     print('obligation:', d.get('obligation'))
     fi = d.get('failing_input') or {}
-    if d.get('backend') == 'verus' and fi.get('found'):
+    if d.get('backend', '').startswith('verus') and fi.get('found'):
         res = falsify.run_tests(repo, [fi['witness']])
         ok, out = res[fi['witness']]
         print(out)
@@ -21,9 +21,44 @@ def run(path, repo):
         return 0
     if d.get('backend') == 'kani' and fi:
         print('kani counterexample (concrete playback values):')
-        print(json.dumps(fi, indent=1))
+        print(json.dumps(fi.get('values'), indent=1))
+        h = d.get('harness')
+        if h and fi.get('playback_test'):
+            import kani_stage
+            ok, out = replay_kani(repo, h, fi['playback_test'])
+            print(out[-3000:])
+            if ok:
+                print('REPLAY: the counterexample fails harness %s on the real crate -> violation reproduced' % h['name'])
+                return 1
+            if ok is False:
+                print('REPLAY: the harness passes on these values (violation not reproduced on this tree)')
+                return 0
+            print('REPLAY: could not run the playback test')
         return 1
     print('no failing input recorded; verifier output follows')
     for v in d.get('verifier_output', []) if isinstance(d.get('verifier_output'), list) else [d.get('verifier_output')]:
         print(v)
     return 1
+
+
+def replay_kani(repo, h, playback_test):
+    """native re-execution of a Kani counterexample (see kani_stage.replay_counterexample)"""
+    import shutil
+    import subprocess
+    import tempfile
+    import kani_stage
+    build = None
+    tmp = None
+    try:
+        if h.get('kmod') == 'verif_kani_layouts':
+            tmp = tempfile.mkdtemp(prefix='verif-replay-splice-')
+            subprocess.run([sys.executable, os.path.join(falsify.VERIF, 'splicer', 'splice.py'), '--repo', repo, '--out', tmp],
+                           stdout=subprocess.DEVNULL, stderr=subprocess.DEVNULL)
+            build = tmp
+        ok, out = kani_stage.replay_counterexample(repo, build, h, playback_test)
+        if ok and h.get('mode') == 'refusal':
+            ok = ('VERIF-RETURNED' in out) or ('overflow' in out)
+        return ok, out
+    finally:
+        if tmp:
+            shutil.rmtree(tmp, ignore_errors=True)
